@@ -683,14 +683,17 @@ impl Subscription {
                 IterDirection::Forward,
             )
             .await?;
-        while let Some(commits) = iter.next_batch(DEFAULT_BATCH_SIZE).await? {
+        'iter: while let Some(commits) = iter.next_batch(DEFAULT_BATCH_SIZE).await? {
             for commit in commits {
                 let Some(first_partition_sequence) = commit.first_partition_sequence() else {
                     continue;
                 };
 
                 if !watermark.can_read(first_partition_sequence) {
-                    break;
+                    // Stop reading altogether (as the partition history does): the watermark
+                    // may advance while the next batch is fetched, and delivering that batch
+                    // would skip the events given up on here
+                    break 'iter;
                 }
 
                 for event in commit {
